@@ -506,7 +506,7 @@ func c11RefText(ref c11Ref, k int) string {
 	switch ref.Type {
 	case "inc":
 		if ref.InnerSv != "" {
-			return fmt.Sprintf(`{%% with sv="%s" %%}{%% include "%s"%s %%}{%% endwith %%}`, ref.InnerSv, ref.Name, tail)
+			return fmt.Sprintf(`{%% with sv="%s" wv="w%s" %%}{%% include "%s"%s %%}{%% endwith %%}`, ref.InnerSv, ref.InnerSv, ref.Name, tail)
 		}
 		return fmt.Sprintf(`{%% include "%s"%s %%}`, ref.Name, tail)
 	case "lazy":
@@ -741,6 +741,12 @@ func (r *c11Ref2) execRefs(n *c11Node, f c11File, execName string, env c11Env, b
 			sub = c11Env{pv: "GLOBAL-PV"}
 			r.probes["only_scope"]++
 		}
+		if ref.InnerSv != "" && !ref.Only {
+			// (bound for the include inside the block only: whatever is included later, outside,
+			// sees the includer's own values again)
+			sub.sv = ref.InnerSv
+			sub.wv = "w" + ref.InnerSv
+		}
 		if ref.With != "" {
 			sub.wv = ref.With
 		} else if ref.WithNil {
@@ -748,9 +754,6 @@ func (r *c11Ref2) execRefs(n *c11Node, f c11File, execName string, env c11Env, b
 		}
 		if ref.With2 != "" {
 			sub.wv2 = ref.With2
-		}
-		if ref.InnerSv != "" && !ref.Only {
-			sub.sv = ref.InnerSv
 		}
 		if ref.WithSv != "" {
 			sub.sv = ref.WithSv
